@@ -129,8 +129,8 @@ def gen_params(rng, fn, data):
         p["dtype"] = "datetime64[ns]"
     if fn == "climatology_test" and rng.chance(0.5):
         p["__as_object__"] = True
-    if fn in ("gross_range_test",) and rng.chance(0.3):
-        p["__tuples__"] = True
+    if rng.chance(0.35) and p.get("dtype") is None:
+        p["__form__"] = rng.pick(("tuples", "numpy"))  # the same values as tuples / numpy scalars
     return p
 
 
@@ -244,8 +244,10 @@ def build_series(spec):
 
 def build_params(fn, params):
     p = json.loads(json.dumps({k: v for k, v in params.items() if not k.startswith("__")}))
-    if params.get("__tuples__"):
-        p = {k: (tuple(v) if isinstance(v, list) else v) for k, v in p.items()}
+    if params.get("__form__"):
+        from sim.pipeline import reform
+
+        p = {k: reform(v, params["__form__"]) for k, v in p.items()}
     if fn == "climatology_test" and params.get("__as_object__"):
         from ioos_qc.qartod import ClimatologyConfig
 
